@@ -21,12 +21,16 @@ RULE = ('cases are histories of 4-12 operations (encrypt with generated or suppl
         'os.urandom failure); a run is non-trivial when at least two operations of the same class were checked against the '
         'draw log and against each other; distinct = distinct operation-class sequences with their recipient kinds')
 TIERS = {'quick': {'runs': 4000, 'budget_s': 80}, 'thorough': {'runs': 200000, 'budget_s': 1500}}
-PROBES = ('same_message_object_again', 'repeat_identical_encrypt', 'reprotect_same_algos', 'reprotect_other_algos', 'urandom_failure_injected', 'ecdh_ephemeral_checked',
+PROBES = ('cipher_chosen_from_preferences', 'same_message_object_again', 'repeat_identical_encrypt', 'reprotect_same_algos', 'reprotect_other_algos', 'urandom_failure_injected', 'ecdh_ephemeral_checked',
           'skesk_salt_checked', 'protect_components>=2', 'supplied_session_key', 'multi_recipient')
 
 
 def generate(rng, tier):
     rcfg = encworld.gen_recipients(rng, n=rng.choice([2, 2, 3]), heavy=0.05)
+    for spec in rcfg.values():
+        if not spec.get('foreign') and rng.random() < 0.4:
+            # the recipient's own cipher preferences, possibly led by one PGPy cannot encrypt with (Twofish)
+            spec['ciphers'] = rng.choice([[10, 7], [10, 8, 9], [10, 9], [7, 9], [12, 9], [10, 12, 7]])
     names = sorted(rcfg)
     steps = []
     n = rng.randint(4, 12 if tier == 'thorough' else 8)
@@ -56,6 +60,11 @@ def generate(rng, tier):
                 spec['file'] = False
                 st = {'id': sid, 'op': 'encrypt', 'msg': spec, 'recips': recips, 'cipher': rng.choice(encworld.CIPHERS),
                       'supplied_sk': rng.random() < 0.12}
+                if rng.random() < 0.3:
+                    # no cipher named by the caller: the (single key) recipient's preferences decide
+                    st['cipher_from_prefs'] = True
+                    st['recips'] = [['key', rng.choice(names)]]
+                    st['supplied_sk'] = False
             st['fail_urandom'] = rng.choice([1, 2, 3]) if rng.random() < 0.08 else 0
             last_enc = {k: v for k, v in st.items() if k not in ('fail_urandom', 'repeat', 'same_object')}
             steps.append(st)
@@ -168,7 +177,11 @@ def _encrypt(pgpy, R, step, recips, ctx, rnd, seen):
         ctx.probe('urandom_failure_injected')
     fired0 = rnd.fired_failures
     try:
-        enc, used = encworld.pgpy_encrypt(pgpy, msg, recips, R, cid, sk)
+        if step.get('cipher_from_prefs') and len(recips) == 1 and recips[0][0] == 'key':
+            ctx.probe('cipher_chosen_from_preferences')
+            enc = R.keys[recips[0][1]].pubkey.encrypt(msg)
+        else:
+            enc, used = encworld.pgpy_encrypt(pgpy, msg, recips, R, cid, sk)
         out = bytes(enc)
         raised = None
     except Exception as e:
@@ -197,11 +210,35 @@ def _encrypt(pgpy, R, step, recips, ctx, rnd, seen):
         except (renc.DecryptError, WireError, ralgo.AlgoError, rkeys.KeyError_):
             continue
     if info is None:
-        # conformance is C03's business
+        # conformance is C03's business - except for the one thing this property names: the session key a public-key recipient
+        # is sent has the size of the cipher it is sent for
+        for kind, who in recips:
+            if kind != 'key':
+                continue
+            for p in split_packets(out):
+                if p.tag != 1:
+                    continue
+                try:
+                    pk = renc.parse_pkesk(p.body)
+                    for pub, secret in R.ref_secrets(who):
+                        if pk.keyid == pub.keyid:
+                            c2, k2 = renc.pkesk_session_key(pk, pub, secret)
+                            ctx.checked()
+                            if c2 in ralgo.CIPHER_NAMES and len(k2) != ralgo.key_size(c2):
+                                ctx.viol('C13:session-key-size', 'the session key sent to a public-key recipient has %d octets, the cipher it names (%s) needs %d'
+                                         % (len(k2), ralgo.CIPHER_NAMES[c2], ralgo.key_size(c2)))
+                except renc.DecryptError as e:
+                    if 'does not fit cipher' in str(e):
+                        ctx.checked()
+                        ctx.viol('C13:session-key-size', 'the session key block sent to a public-key recipient has the wrong length for the cipher it names: %s' % e)
+                    continue
+                except (WireError, ralgo.AlgoError, rkeys.KeyError_, ValueError):
+                    continue
         ctx.event(step['id'], 'encrypt', 'ref-cannot-open')
         return False
     ctx.checked()
     skey, prefix = bytes(info['session_key']), bytes(info['prefix'])
+    cid = info.get('cipher', cid)            # the cipher the message actually names
     ks, bs = ralgo.key_size(cid), ralgo.block_size(cid)
     if sk is None:
         if len(skey) != ks:
